@@ -143,7 +143,8 @@ def is_cycle_of(cyc, edges):
     return bool(cyc) and all((cyc[i], cyc[(i + 1) % len(cyc)]) in pairs for i in range(len(cyc)))
 
 
-def run_history(case):
+def run_history(case, light=False):
+    """light: for the exploration - no observation rows, state key of the last step only."""
     from operon_ai.coordination import controller as Cm, types as Tm, watchdog as Wm, priority as Pm
     mods = [Cm, Tm, Wm, Pm]
     saved = [m.datetime for m in mods]
@@ -154,24 +155,46 @@ def run_history(case):
         w = D.World(case["res"], {"strategy": case["strategy"]})
         ref = Reference()
         obs, steps = [], []
-        for h in case["ops"]:
-            before = w.view()
-            # ages differ: one tick per start so that "oldest" is well defined
+        flat = lambda es: [x for e in es for x in e]
+        after = w.view()
+        n = len(case["ops"])
+        for i, h in enumerate(case["ops"]):
+            before = after
             ret = xstep(w, h)
             after = w.view()
             refedges = ref.step(h, ret, after)
-            obs.append([100] + ret)
-            obs += w.snapshot()
-            flat = lambda es: [x for e in es for x in e]
-            obs.append([201] + flat(after["edges"]))
-            obs.append([204] + flat(refedges))
-            obs += prio_rows(w)
+            if not light:
+                obs.append([100] + ret)
+                obs += w.snapshot()
+                obs.append([201] + flat(after["edges"]))
+                obs.append([204] + flat(refedges))
+                obs += prio_rows(w)
             steps.append({"op": h, "ret": ret, "before": before, "after": after, "ref": refedges,
-                          "key": state_key(w, ref)})
+                          "key": state_key(w, ref) if (not light or i == n - 1) else None})
         return obs, steps
     finally:
         for m, d in zip(mods, saved):
             m.datetime = d
+
+
+def _alarm(_sig, _frm):
+    raise common.Hang()
+
+
+def run_light(case, timeout=10):
+    """run_history(light) under an interval timer when on the main thread (a thread per call costs as much
+    as the call), under the thread watchdog otherwise."""
+    import signal
+    import threading
+    if threading.current_thread() is not threading.main_thread():
+        return common.call_with_watchdog(lambda: run_history(case, light=True), float(timeout))
+    old = signal.signal(signal.SIGALRM, _alarm)
+    signal.setitimer(signal.ITIMER_REAL, timeout)
+    try:
+        return run_history(case, light=True)
+    finally:
+        signal.setitimer(signal.ITIMER_REAL, 0)
+        signal.signal(signal.SIGALRM, old)
 
 
 def state_key(w, ref):
@@ -194,26 +217,37 @@ class C15(Check):
     N_QUICK = 500
     N_THOROUGH = 6000
     RULE = ("histories over {start(op,priority), acquire(op,r), release(op,r), complete(op), abort(op), watchdog.execute()} for 2-3 "
-            "operations x 2-3 resources, each resource preemptable or not, strategies priority/oldest/other. Exhaustive part: every "
-            "history up to depth 5-6 (quick) / 8 (thorough) of the 2x2 configurations and depth 4 / 6 of the 3x3 ones, explored "
-            "depth-first on the real code with calls on inactive operations dropped (they are no-ops) and a subtree cut when the "
-            "complete controller+monitor state was already expanded with at least the same remaining depth; one case per maximal "
-            "explored path. Random part: histories of length 4..14 biased towards blocking/cycles. non-trivial = at least one "
+            "operations x 2-3 resources, each resource preemptable or not, strategies priority/oldest/other, interleaved with the calls that "
+            "change what a LATER acquisition returns without being one: PriorityInheritance.check_and_boost / restore_priority / clear_all "
+            "(one PriorityInheritance object per history, as in CoordinationSystem.run_maintenance), assignment to OperationContext.priority, "
+            "assignment to ResourceLock.allow_preemption. Exhaustive part: every history up to depth 5-6 (quick) / 8 (thorough) of the 2x2 "
+            "configurations and depth 4 / 6 of the 3x3 ones; with all operations started first: 2 operations x 2 resources with priority "
+            "assignments in the alphabet to depth 5 / 7, and 3 operations (the highest-priority one last in the chain) x 2 resources over "
+            "{acquire, release, watchdog, check_and_boost, restore_priority(, clear_all)} to depth 6 / 7; explored depth-first on the real "
+            "code with calls on inactive operations dropped (they are no-ops) and a subtree cut when the complete "
+            "controller+lock+boost+monitor state was already expanded with at least the same remaining depth; the monitor runs on every "
+            "explored transition; one case per maximal explored path (for the priority configurations an evenly spaced subset of at most "
+            "300 / 4000 paths per configuration goes through the Coq correspondence). Random part: histories of length 4..20 biased "
+            "towards blocking/cycles and towards priority inversion chains followed by inheritance and retries. non-trivial = at least one "
             "BLOCKED/PREEMPTED acquisition; distinct by content")
-    LEVEL_TEXT = ("Coq theorems over all histories of any length and any number of operations/resources about the model of the controller "
-                  "(C14/Model.v) with a ghost reference relation: the recorded dependency edges equal the reference wait-for relation in "
-                  "every reachable state; a reported cycle is a real cycle of the recorded (= reference) relation whose members are live and "
-                  "really waiting; if the relation has a cycle detect_cycle reports one (DFS white/grey/black argument, fuel proved "
-                  "sufficient); the watchdog's victim is a minimal-priority / oldest member, owns nothing afterwards and the cycle is gone. "
-                  "The model is tied to the code by running both on the same histories; the reference relation is recomputed "
-                  "independently in Python on every implementation trace.")
+    LEVEL_TEXT = ("Coq theorems over all histories of any length and any number of operations/resources - including priority inheritance "
+                  "(check_and_boost, restore_priority, clear_all), priority assignments and allow_preemption assignments at any point - about "
+                  "the model of the controller (C14/Model.v) and of priority.py (C15/Model.v) with a ghost reference relation: the recorded "
+                  "dependency edges equal the reference wait-for relation in every reachable state; nobody is recorded as waiting for itself; "
+                  "an acquisition that returns anything but BLOCKED ends that operation's wait for that resource (also for a former waiter "
+                  "that now preempts); a priority call changes neither relation nor the verdict; a reported cycle is a real cycle of the "
+                  "recorded (= reference) relation whose members are live and really waiting; if the relation has a cycle detect_cycle reports "
+                  "one (DFS white/grey/black argument, fuel proved sufficient); the watchdog's victim is a minimal-priority / oldest member, "
+                  "owns nothing afterwards and the cycle is gone. The model is tied to the code by running both on the same histories; the "
+                  "reference relation is recomputed independently in Python on every implementation trace.")
     LEVEL_NOTE = ("Trusts: Coq kernel+VM; the correspondence harness; the READING of 'currently blocked' (DESIGN.md C15); fresh operation ids; "
-                  "sequential calls; priority inheritance not modelled. Axioms: none.")
+                  "sequential calls. Axioms: none.")
     TECHNIQUE = "Coq invariant proof (edges = ghost reference) + DFS correctness proof; vm_compute correspondence; exhaustive small-scope exploration"
     TRUSTED = ["modelled not verified: ids are integers, contexts are identified with their fresh operation id, virtual clock",
                "the Python reference monitor (harness/c15.py Reference / has_cycle) is the transcription of the READING; it is cross-checked "
                "against the Coq ghost relation on every case (observation row 204)",
-               "PriorityInheritance.check_and_boost / run_maintenance are not modelled"]
+               "PriorityBoost records are observed as (operation, original_priority, boosted_priority); reason/timestamp and "
+               "PriorityInheritance.total_boosts are not modelled"]
     ASSUMPTIONS = ["operation ids are fresh per operation", "resources are registered before the history starts",
                    "calls are sequential", "rec_stack of detect_cycle always equals the set of elements of path (modelled as one list)"]
 
@@ -235,6 +269,14 @@ class C15(Check):
         al += [tuple(x) for x in extra]
         return al
 
+    def _light_impl(self, case):
+        try:
+            return run_light(case)
+        except common.Hang:
+            return [[-999]], {"hang": True}
+        except Exception as e:
+            return [[-998]], {"harness_error": f"{type(e).__name__}: {e}"}
+
     def explore(self, res, strategy, prios, depth, al=None, prefix0=()):
         """Depth-first exploration on the real code; returns maximal explored paths."""
         if al is None:
@@ -251,7 +293,7 @@ class C15(Check):
                 for sym in al:
                     h = mk(sym)
                     case = {"res": res, "strategy": strategy, "ops": prefix + [h]}
-                    _obs, steps = self._safe_impl(case)
+                    _obs, steps = self._light_impl(case)
                     self.explored_edges += 1
                     if not isinstance(steps, list):      # the implementation raised / hung
                         v = self.monitor(case, None, steps)
@@ -263,7 +305,7 @@ class C15(Check):
                     st = steps[-1]
                     if st["ret"] == [-1]:
                         continue                       # call on an inactive operation / reused id: nothing happens
-                    v = self.monitor(case, None, steps)
+                    v = self.monitor(case, None, steps, only_last=True)   # the prefix was checked on the way here
                     if v is not None:
                         v.case = case
                         self.violations.append(v)
@@ -312,22 +354,40 @@ class C15(Check):
             for ops in self.explore(res, strat, prios, depth):
                 cases.append({"res": res, "strategy": strat, "ops": ops})
         # priorities that change during the history (priority.py, plain assignment): a waiter that was BLOCKED
-        # can later PREEMPT.  (a) two operations, one assignment symbol per operation and level;
-        # (b) three started operations W > O >= H in priority, inheritance along W -> H -> O, no complete/abort
+        # can later PREEMPT.  All operations are started first (the interleaving of starts is covered above).
+        # (a) two operations, assignments to OperationContext.priority in the alphabet;
+        # (b) three operations O, H, W with W highest, priority inheritance (check_and_boost / restore_priority /
+        #     clear_all) in the alphabet, no complete/abort.
+        # Every explored transition is monitored; of the maximal paths at most `cap` per configuration
+        # (evenly spaced) also go through the Coq correspondence.
         n_before = self.explored_edges
-        dA, dB = (6, 6) if quick else (8, 8)
-        for pre in ([True, False], [True, True]):
+        dA, dB = (5, 6) if quick else (7, 7)
+        cap = 300 if quick else 4000
+        npaths = 0
+
+        def emit(res, paths):
+            nonlocal npaths
+            npaths += len(paths)
+            k = max(1, -(-len(paths) // cap))
+            for ops in paths[::k]:
+                cases.append({"res": res, "strategy": "priority", "ops": ops})
+        for pre in ([[True, False]] if quick else [[True, False], [True, True], [False, False]]):
             res = [[1, pre[0]], [2, pre[1]]]
-            al = self.alphabet(2, 2, extra=[("setprio", 1, 2), ("setprio", 2, 0)] + ([("setprio", 1, 0), ("setprio", 2, 2)] if not quick else []))
-            for ops in self.explore(res, "priority", [0, 1], dA, al=al):
-                cases.append({"res": res, "strategy": "priority", "ops": ops})
-        for res, prios in (([[1, False], [2, True]], [1, 0, 2]), ([[1, True], [2, True]], [1, 1, 2])):
+            extra = [("setprio", 1, 2), ("setprio", 2, 0)]
+            if not quick:
+                extra += [("setprio", 1, 0), ("setprio", 2, 2), ("setpre", 2, True)]
+            al = self.alphabet(2, 2, starts=False, extra=extra)
+            emit(res, self.explore(res, "priority", [0, 1], dA, al=al, prefix0=[["start", 1, 0], ["start", 2, 1]]))
+        cfgB = [([[1, False], [2, True]], [1, 0, 2])]
+        if not quick:
+            cfgB.append(([[1, True], [2, True]], [1, 1, 2]))
+        for res, prios in cfgB:
             al = self.alphabet(3, 2, starts=False, ends=False,
-                               extra=[("boost",), ("restore", 1), ("restore", 2), ("clearboosts",)])
+                               extra=[("boost",), ("restore", 1), ("restore", 2)] + ([("clearboosts",)] if not quick else []))
             pre0 = [["start", o, prios[o - 1]] for o in (1, 2, 3)]
-            for ops in self.explore(res, "priority", prios, dB, al=al, prefix0=pre0):
-                cases.append({"res": res, "strategy": "priority", "ops": ops})
+            emit(res, self.explore(res, "priority", prios, dB, al=al, prefix0=pre0))
         self.extra_cov["explored_transitions_priority_changes"] = self.explored_edges - n_before
+        self.extra_cov["maximal_paths_priority_changes"] = npaths
         self.extra_cov["explored_transitions"] = self.explored_edges
         self.extra_cov["exhaustive_depths"] = {"2ops_x_2res": d22, "3ops_x_3res": d33, "2ops_x_2res_setprio": dA,
                                                "3ops_x_2res_inheritance_after_starts": dB}
@@ -344,7 +404,8 @@ class C15(Check):
             prios = [rng.choice([0, 0, 1, 2]) for _ in range(nops)]
             ops = [["start", o, prios[o - 1]] for o in range(1, nops + 1)]
             rng.shuffle(ops)
-            if rng.random() < 0.3:
+            ring = rng.random() < 0.3
+            if ring:
                 # a ring: op i takes r_i, then asks for r_(i+1): a wait-for cycle of length n
                 n = min(nops, nres) if rng.random() < 0.7 else 2
                 res = [[r, (p and rng.random() < 0.3)] for r, p in res]
@@ -355,11 +416,61 @@ class C15(Check):
                 ops += first + second
                 if rng.random() < 0.7:
                     ops.append(["wd"])
+            if not ring and rng.random() < 0.3 and nops >= 3:
+                # priority inversion: a chain of operations, each holding one resource and blocked on the next
+                # one's, the LAST link of the chain having the highest priority; then priority inheritance
+                # (or a plain assignment) and retries of the blocked acquisitions with the inherited priority
+                n = rng.choice([2, 3, 3, nops]) if nops >= 3 else 2
+                n = min(n, nops)
+                chain = list(range(1, nops + 1))
+                rng.shuffle(chain)
+                chain = chain[:n]                                  # chain[0] owns only; chain[-1] is the top waiter
+                rs = (rng.sample(range(1, nres + 1), n) if n <= nres and rng.random() < 0.8
+                      else [rng.randint(1, nres) for _ in range(n)])
+                res = [[r, (p or rng.random() < 0.6)] for r, p in res]
+                base = rng.choice([0, 1, 3])
+                pr = {o: base + rng.choice([0, 0, 1]) for o in chain}
+                pr[chain[-1]] = base + rng.choice([1, 2, 2])
+                ops = [["start", o, pr.get(o, rng.choice([0, 1, 2]))] for o in range(1, nops + 1)]
+                rng.shuffle(ops)
+                ops.append(["acq", chain[0], rs[0]])
+                blocked = []
+                for i in range(1, n):
+                    if i < n - 1 or rng.random() < 0.5:
+                        ops.append(["acq", chain[i], rs[i]])
+                    ops.append(["acq", chain[i], rs[i - 1]])
+                    blocked.append(["acq", chain[i], rs[i - 1]])
+                if rng.random() < 0.8:
+                    ops.append(["boost"])
+                else:
+                    ops.append(["setprio", rng.choice(chain), base + rng.choice([2, 3])])
+                if rng.random() < 0.3:
+                    ops.append(["setpre", rng.choice(rs), True])
+                rng.shuffle(blocked)
+                ops += blocked[:rng.randint(1, len(blocked))]
+                if rng.random() < 0.4:
+                    ops.append(rng.choice([["restore", rng.choice(chain)], ["clearboosts"], ["boost"]]))
+                    ops += blocked[:rng.randint(0, len(blocked))]
+                if rng.random() < 0.6:
+                    ops.append(["wd"])
+            pchange = rng.choice([0.0, 0.0, 0.12, 0.25])
             for _ in range(rng.randint(3, 12)):
                 k = rng.random()
                 o = rng.randint(1, nops)
                 r = rng.randint(1, nres)
-                if k < 0.6:
+                if rng.random() < pchange:
+                    j = rng.random()
+                    if j < 0.4:
+                        ops.append(["boost"])
+                    elif j < 0.55:
+                        ops.append(["restore", o])
+                    elif j < 0.62:
+                        ops.append(["clearboosts"])
+                    elif j < 0.87:
+                        ops.append(["setprio", o, rng.choice([0, 1, 2, 3])])
+                    else:
+                        ops.append(["setpre", rng.choice([r, r, nres + 1]), rng.random() < 0.7])
+                elif k < 0.6:
                     ops.append(["acq", o, r])
                 elif k < 0.72:
                     ops.append(["rel", o, r])
@@ -384,10 +495,12 @@ class C15(Check):
         return ctuple(D.coq_res(case["res"]), STRAT[case["strategy"]], clist([coq_xop(h) for h in case["ops"]]))
 
     # -- the property, on the implementation's trace ------------------------
-    def monitor(self, case, obs, steps):
+    def monitor(self, case, obs, steps, only_last=False):
         if isinstance(steps, dict):
             return Violation("C15/raises", f"the history did not run to its end: {steps}")
         for i, st in enumerate(steps):
+            if only_last and i < len(steps) - 1:
+                continue
             h, after, before, ref = st["op"], st["after"], st["before"], st["ref"]
             edges = after["edges"]
             refset = sorted(set(ref))
@@ -439,11 +552,19 @@ class C15(Check):
         if not isinstance(steps, list):
             return ["error"]
         ks = [f"len={min(len(steps), 15)}"]
+        prev_ref = []
         for st in steps:
             h = st["op"]
             ks.append("op=" + h[0])
             if h[0] == "acq" and st["ret"] and st["ret"][0] >= 0:
                 ks.append("acquire=" + {0: "acquired", 1: "blocked", 2: "reentrant", 3: "preempted", 9: "unknown"}[st["ret"][0]])
+                if st["ret"][0] == 3 and any(wt == h[1] and r == h[2] for (wt, _b, r) in prev_ref):
+                    ks.append("preempted-by-former-waiter")
+            if h[0] == "boost" and st["ret"]:
+                ks.append("boost-applied")
+            if h[0] == "restore" and st["ret"] and st["ret"][0] == 1:
+                ks.append("boost-restored")
+            prev_ref = st["ref"]
             if st["after"]["cycle"] is not None:
                 ks.append(f"deadlock-reported-len{len(st['after']['cycle'])}")
             if h[0] == "wd" and st["ret"]:
